@@ -210,11 +210,13 @@ func checkC02(c *Ctx) {
 	c.R.Clauses = append(c.R.Clauses,
 		"T1: the decision table of Iterator.ReadOne (nil→value, skip→retry, terminating→returned, other→recorded + io.EOF), close-on-error, closed-first, Next tests the flag, doClose once",
 		"X1: the decision table of every producer/processor/transform/reducer loop continues on ErrIteratorSkip and never turns a nil error into a terminating one",
-		"R1: JSON decoding yields a fresh value per element (no merge of the previous element into the next)")
+		"R1: JSON decoding yields a fresh value per element (no merge of the previous element into the next)",
+		"T3: the consumer side of every pipe is a pure drain (no combinator that ends or thins the stream before the channel is empty)")
 	c.R.NotCov = append(c.R.NotCov, "equality of the produced sequence with filter/map/concat/fold on all inputs and operator trees", "JSON round trips", "the values of Producer.Join's state machine")
 	ruleT1(c)
 	ruleX1(c, 10)
 	ruleR1(c, allPkgs, 2)
+	ruleT3(c, pipePkgs, 8)
 }
 
 func checkC04(c *Ctx) {
